@@ -59,6 +59,7 @@ class Ctx:
         self.counters: dict[str, int] = {}
         self.explanation = ""
         self.extra: dict[str, object] = {}
+        self.floor_failures: list[str] = []
 
     # --- recording -----------------------------------------------------------------------------
     def analysed(self, fi: FuncInfo | str) -> None:
@@ -89,12 +90,21 @@ class Ctx:
                            node=node, path=path)
         return cond
 
-    def floor(self, what: str, found: int, minimum: int) -> None:
-        """Instance floor: a rule that matches fewer sites than were confirmed by hand is analysis-broken."""
-        if found < minimum:
-            raise AnalysisError(f"{self.prop}: {what}: found {found} instance(s), expected at least {minimum} "
-                                f"(the rule would pass vacuously; the code moved outside the analyser's model)")
+    def floor(self, what: str, found: int, minimum: int, now: bool = False) -> None:
+        """Instance floor: a rule that matches fewer sites than were confirmed by hand is analysis-broken.
+        Deferred to the end of the check: a run that already found violations reports those (a verdict); a run without
+        findings and with a missed floor is ANALYSIS-ERROR (it would otherwise pass vacuously)."""
         self.counters[f"floor:{what}"] = found
+        if found < minimum:
+            msg = (f"{self.prop}: {what}: found {found} instance(s), expected at least {minimum} "
+                   f"(the rule would pass vacuously; the code moved outside the analyser's model)")
+            if now:
+                raise AnalysisError(msg)
+            self.floor_failures.append(msg)
+
+    def finish(self) -> None:
+        if self.floor_failures and not self.findings:
+            raise AnalysisError(self.floor_failures[0])
 
     def sample(self, s: object) -> None:
         if len(self.samples) < 40:
